@@ -10,8 +10,12 @@
 //!
 //! `gen <dirhex> <name> yk=G|U|O rec=C|N|- ser=F|V|- ed=2015|2018|2021 vis=priv|pub|super|self|crate|in:<hexpath>
 //!      mody=<name>|- modl=<name>|- [lf:<flag>=<0|1|num> ...]`
+//!      [entry=build|pf] [amp=0|1]
 //!     <dir>/<name>.y and <dir>/<name>.l exist; runs CTLexerBuilder + CTParserBuilder with
-//!     explicit output paths <dir>/<name>.y.rs, <dir>/<name>.l.rs.
+//!     explicit output paths <dir>/<name>.y.rs, <dir>/<name>.l.rs.  entry=build (default):
+//!     `CTLexerBuilder::lrpar_config(..).build()`; entry=pf: the deprecated `CTParserBuilder::process_file`
+//!     followed by `CTLexerBuilder::rule_ids_map(<its result>).process_file`; all options are set through the
+//!     builders in both cases.  amp: `allow_missing_tokens_in_parser`.
 //!     -> `OK` | `ERR <hexmsg>` | `PANIC <hexmsg>`
 //!
 //! `lexgen <dirhex> <name> [lf:<flag>=<0|1|num> ...]`
@@ -125,11 +129,39 @@ fn mode_subst(fields: &[&str]) -> String {
 
 // ---- gen -----------------------------------------------------------------
 
+/// the options of the parser builder: all of them are set THROUGH THE BUILDER, whatever the entry point
+struct PCfg {
+    ykind: YaccKind,
+    ped: lrpar::RustEdition,
+    pv: lrpar::Visibility,
+    rec: String,
+    ser: String,
+    mody: Option<&'static str>,
+}
+
+fn cfg_parser<'a>(mut cp: CTParserBuilder<'a, LT>, o: &PCfg) -> CTParserBuilder<'a, LT> {
+    cp = cp.yacckind(o.ykind).rust_edition(o.ped).visibility(o.pv.clone()).show_warnings(false);
+    match o.rec.as_str() {
+        "C" => cp = cp.recoverer(RecoveryKind::CPCTPlus),
+        "N" => cp = cp.recoverer(RecoveryKind::None),
+        _ => {}
+    }
+    match o.ser.as_str() {
+        "F" => cp = cp.serialisation_format(SerialisationFormat::FixedSizeInteger),
+        "V" => cp = cp.serialisation_format(SerialisationFormat::VariableSizedInteger),
+        _ => {}
+    }
+    if let Some(m) = o.mody {
+        cp = cp.mod_name(m);
+    }
+    cp
+}
+
 fn mode_gen(fields: &[&str]) -> String {
     let dir = unhex(fields[0]);
     let name = fields[1].to_string();
     let opts: Vec<String> = fields[2..].iter().map(|s| s.to_string()).collect();
-    let r = catch(move || {
+    let r = catch(move || -> Result<(), String> {
         let opts: Vec<&str> = opts.iter().map(|s| s.as_str()).collect();
         let d = PathBuf::from(&dir);
         let yp = d.join(format!("{}.y", name));
@@ -171,33 +203,22 @@ fn mode_gen(fields: &[&str]) -> String {
             _ => (lrpar::RustEdition::Rust2021, lrlex::RustEdition::Rust2021),
         };
         let pv = pvis(&vis);
-        let mody2 = mody.clone();
-        let mut lb = CTLexerBuilder::new()
-            .lrpar_config(move |mut cp| {
-                cp = cp.yacckind(ykind).grammar_path(&yp).output_path(&yo).rust_edition(ped).visibility(pv.clone()).show_warnings(false);
-                match rec.as_str() {
-                    "C" => cp = cp.recoverer(RecoveryKind::CPCTPlus),
-                    "N" => cp = cp.recoverer(RecoveryKind::None),
-                    _ => {}
-                }
-                match ser.as_str() {
-                    "F" => cp = cp.serialisation_format(SerialisationFormat::FixedSizeInteger),
-                    "V" => cp = cp.serialisation_format(SerialisationFormat::VariableSizedInteger),
-                    _ => {}
-                }
-                if mody2 != "-" {
-                    // leaked: the builder wants a &'a str that outlives the closure
-                    cp = cp.mod_name(Box::leak(mody2.clone().into_boxed_str()));
-                }
-                cp
-            })
-            .lexer_path(&lp)
-            .output_path(&lo)
-            .rust_edition(led)
-            .visibility(lvis(&vis))
-            .show_warnings(false);
+        let entry = kv(&opts, "entry").unwrap_or("build").to_string();
+        let amp = kv(&opts, "amp").map(|v| v == "1");
+        let pcfg = PCfg {
+            ykind,
+            ped,
+            pv,
+            rec,
+            ser,
+            mody: if mody != "-" { Some(Box::leak(mody.clone().into_boxed_str())) } else { None },
+        };
+        let mut lb: CTLexerBuilder<'static, LT> = CTLexerBuilder::new().rust_edition(led).visibility(lvis(&vis)).show_warnings(false);
         if modl != "-" {
             lb = lb.mod_name(Box::leak(modl.clone().into_boxed_str()));
+        }
+        if let Some(a) = amp {
+            lb = lb.allow_missing_tokens_in_parser(a);
         }
         for o in &opts {
             if let Some(fl) = o.strip_prefix("lf:") {
@@ -205,6 +226,17 @@ fn mode_gen(fields: &[&str]) -> String {
                 lb = apply_lex_flag(lb, k, v);
             }
         }
+        if entry == "pf" {
+            // the deprecated (still public) entry points: CTParserBuilder::process_file gives the token map,
+            // which is handed to the lexer builder, whose process_file writes the lexer module
+            #[allow(deprecated)]
+            let map = cfg_parser(CTParserBuilder::<LT>::new(), &pcfg).process_file(&yp, &yo).map_err(|e| err_string(&*e))?;
+            #[allow(deprecated)]
+            let r = lb.rule_ids_map(map).process_file(&lp, &lo).map(|_| ()).map_err(|e| err_string(&*e));
+            return r;
+        }
+        let (yp2, yo2) = (yp.clone(), yo.clone());
+        lb = lb.lrpar_config(move |cp| cfg_parser(cp, &pcfg).grammar_path(&yp2).output_path(&yo2)).lexer_path(&lp).output_path(&lo);
         lb.build().map(|_| ()).map_err(|e| err_string(&*e))
     });
     match r {
